@@ -132,11 +132,17 @@ class World:
         import pyhap.accessory_driver as accessory_driver
         import pyhap.hap_protocol as hap_protocol
 
+        import time as _time
+
         self.rng = rng
+        self.clock_offset = 0.0  # virtual time: op "T" advances every clock the accessory can read
+        real_mono, real_time = _time.monotonic, _time.time
         self._patches = [
             patch.object(accessory_driver, "AsyncZeroconf"),
             patch.object(accessory_driver.AccessoryDriver, "persist"),
             patch("pyhap.util.get_local_address", return_value="127.0.0.1"),
+            patch("time.monotonic", lambda: real_mono() + self.clock_offset),
+            patch("time.time", lambda: real_time() + self.clock_offset),
         ]
         for p in self._patches:
             p.start()
@@ -322,9 +328,60 @@ class Runner:
         self.impl.append({"paired": self.paired_obs()})
         self.outcomes.append("unpair")
 
+    def closed(self, c) -> bool:
+        """Connection c was closed by the accessory: asyncio delivers nothing any more (op skipped)."""
+        _p, t, _r = self.w.conn(c)
+        if t.closed:
+            self.outcomes.append("skipped-closed")
+        return t.closed
+
+    def op_T(self, n, op):
+        """Time passes (every clock the accessory can read is advanced)."""
+        self.w.clock_offset += float(op["dt"])
+        self.outcomes.append("T")
+
+    def _m1(self, c, ex, body, op, usable):
+        """Send a first message; reference bookkeeping, model tables, oracles."""
+        _p, _t, r = self.w.conn(c)
+        n = len(self.mops)  # the model names the key pair generated in a step by the step number
+        m = self.w.request(c, rc.http_request("POST", "/pair-verify", body, CT), op.get("split"))
+        got = canon_resp(m)
+        answered = m.get("status") == 200 and ex.on_m2(m.get("body", b""), rc.raw_pub_bytes(self.w.driver.state.public_key))
+        if answered:
+            self.row("pub", [n, hx(ex.sepk)])
+            self.row("dh", [n, hx(ex.cepk), hx(ex.shared)])
+            self.row("hkdf", [hx(ex.shared), hx(ex.pre)])
+            r.cur = ex
+            ex.m1_body = body
+            ex.conn = c
+            # ---- freshness oracle: the proof must be bound to BOTH fresh ephemeral keys, so the accessory's
+            # ephemeral public keys of distinct exchanges are pairwise distinct
+            seen = self.__dict__.setdefault("sepk_seen", {})
+            if ex.sepk in seen:
+                self.fail(
+                    "C02:accessory-ephemeral-key-reused",
+                    f"the accessory answered the first step on connection {c} with the same ephemeral public key as in an "
+                    f"earlier exchange (on connection {seen[ex.sepk]}): exchanges are not bound to a fresh accessory key",
+                )
+            seen.setdefault(ex.sepk, c)
+            self.all_ex.append(ex)
+        elif usable:
+            # the reference expects an answer here; let the model proceed so that the difference shows
+            self.row("dh", [n, hx(ex.cepk), "ee" * 32])
+        self.mops.append({"op": "verify", "conn": c, "body": hx(body)})
+        self.impl.append({"resp": got, "under": _h(m.get("under"))})
+        # oracle (completeness needs step 1 to be answered; accessory authentication is checked too)
+        if usable and self.ref_paired:
+            if not answered:
+                self.fail("C02:honest-controller-refused", f"M1 with a valid ephemeral key on a paired accessory was not answered with M2: {got}")
+            elif ex.acc_sig_ok is False or ex.acc_id != self.w.mac:
+                self.fail("C02:m2-not-authentic", "M2 does not carry the accessory's signature over sepk||id||cepk")
+        return answered, got
+
     def op_V1(self, n, op):
         c = op["conn"]
-        _p, _t, r = self.w.conn(c)
+        if self.closed(c):
+            return
         ex = rc.Exchange(rc.x25519.X25519PrivateKey.from_private_bytes(self._rb(32)))
         kind = op.get("eph", "fresh")
         if kind == "zero":
@@ -338,32 +395,51 @@ class Runner:
             body = tlv8.encode([(rc.T_STATE, b"\x01")])
         else:
             body = tlv8.encode([(rc.T_STATE, b"\x01"), (rc.T_PUBKEY, ex.cepk)])
+        usable = kind != "nokey" and rc.x25519_usable(ex.cepk)
+        answered, got = self._m1(c, ex, body, op, usable)
+        self.outcomes.append("V1-" + ("M2" if answered else _cls(got)))
+
+    def op_RX(self, n, op):
+        """An eavesdropper replays a completed exchange verbatim (recorded M1 and M3 request bodies) on
+        another connection.  It knows no secret, so it must be refused."""
+        c = op["conn"]
+        if self.closed(c):
+            return
+        done = [e for e in self.all_ex if getattr(e, "m3_body", None) is not None]
+        if not done:
+            self.outcomes.append("RX-nothing-recorded")
+            return
+        src = done[op.get("pick", 0) % len(done)]
+        _p, _t, r = self.w.conn(c)
+        ex = rc.Exchange(src.eph)  # what the owner of the recorded ephemeral key would compute (for the tables only)
+        answered, got = self._m1(c, ex, src.m1_body, op, True)
+        self.outcomes.append("RX1-" + ("M2" if answered else _cls(got)))
+        body = src.m3_body
+        cur = r.cur
+        expected, why = self.ref_iff(cur, body)
+        self.fill_tables(body)
         m = self.w.request(c, rc.http_request("POST", "/pair-verify", body, CT), op.get("split"))
         got = canon_resp(m)
-        usable = kind != "nokey" and rc.x25519_usable(ex.cepk)
-        answered = m.get("status") == 200 and ex.on_m2(m.get("body", b""), rc.raw_pub_bytes(self.w.driver.state.public_key))
-        # tables for the model: the key pair generated in this step is named n
-        if answered:
-            self.row("pub", [n, hx(ex.sepk)])
-            self.row("dh", [n, hx(ex.cepk), hx(ex.shared)])
-            self.row("hkdf", [hx(ex.shared), hx(ex.pre)])
-            r.cur = ex
-            self.all_ex.append(ex)
-        elif usable:
-            # the reference expects an answer here; let the model proceed so that the difference shows
-            self.row("dh", [n, hx(ex.cepk), "ee" * 32])
+        success = got.get("status") == 200 and got.get("tlv") == [[rc.T_STATE, "04"]]
         self.mops.append({"op": "verify", "conn": c, "body": hx(body)})
         self.impl.append({"resp": got, "under": _h(m.get("under"))})
-        # oracle (completeness needs step 1 to be answered; accessory authentication is checked too)
-        if usable and self.ref_paired:
-            if not answered:
-                self.fail("C02:honest-controller-refused", f"M1 with a valid ephemeral key on a paired accessory was not answered with M2: {got}")
-            elif ex.acc_sig_ok is False or ex.acc_id != self.w.mac:
-                self.fail("C02:m2-not-authentic", "M2 does not carry the accessory's signature over sepk||id||cepk")
-        self.outcomes.append("V1-" + ("M2" if answered else _cls(got)))
+        if success:
+            r.session = rc.Session(ex.shared) if ex.shared else None
+            r.session_key = ex.shared
+            self.fail(
+                "C02:verbatim-replay-upgraded",
+                f"the recorded M1 and M3 request bodies of a completed exchange (connection {getattr(src, 'conn', '?')}), re-sent "
+                f"verbatim on connection {c} by a party that knows no secret, were answered with success",
+            )
+            if expected:  # only possible when the accessory did not use a fresh key
+                r.verified_as = src.verified_uuid
+                r.last, r.cur = cur, None
+        self.outcomes.append("RX3-" + ("upgrade" if success else _cls(got)))
 
     def op_V3(self, n, op):
         c = op["conn"]
+        if self.closed(c):
+            return
         _p, _t, r = self.w.conn(c)
         cur = r.cur
         ex = cur
@@ -485,6 +561,9 @@ class Runner:
             r.verified_as = u
             r.last = cur
             r.cur = None
+            if success:
+                cur.m3_body = body  # what an eavesdropper records of a completed exchange
+                cur.verified_uuid = u
         elif success:
             self.fail(
                 "C02:upgrade-without-valid-proof",
@@ -548,8 +627,59 @@ class Runner:
                     for k in self.keys_seen:
                         self.row("verify", [hx(k), hx(msg), hx(proof), rc.ed_verify(k, msg, proof)])
 
+    def op_L(self, n, op):
+        """POST /pairings (list): shows as which controller the connection is authorised."""
+        c = op["conn"]
+        if self.closed(c):
+            return
+        _p, _t, r = self.w.conn(c)
+        body = tlv8.encode([(rc.T_METHOD, b"\x05")])
+        m = self.w.request(c, rc.http_request("POST", "/pairings", body, CT), op.get("split"))
+        got = canon_resp(m)
+        listed = None
+        if got.get("status") == 200 and "tlv" in got and not any(t == rc.T_ERROR for t, _ in got["tlv"]):
+            listed = sum(1 for t, _ in tlv8.records(m["body"]) if t == rc.T_ID)
+            got = {"status": 200, "listed": listed}
+        self.mops.append({"op": "list", "conn": c})
+        self.impl.append({"resp": got, "under": _h(m.get("under"))})
+        who = r.verified_as
+        if listed is not None and (who is None or who not in self.ref_paired or not self.ref_paired[who]["admin"]):
+            self.fail(
+                "C02:pairings-served-under-unproven-identity",
+                f"list-pairings on connection {c} was served although the only identity proven on it is "
+                f"{'none' if who is None else ('controller ' + str(who) + ', which is not an admin')}",
+            )
+        self.outcomes.append("L-" + ("listed" if listed is not None else _cls(got)))
+
+    def op_RP(self, n, op):
+        """Remove a pairing through POST /pairings on connection c (the protocol's own path)."""
+        c = op["conn"]
+        if self.closed(c):
+            return
+        _p, _t, r = self.w.conn(c)
+        ident = spell(op["id"], op.get("sp", "upper"))
+        u = parse_uuid(ident)
+        who = r.verified_as
+        may = who is not None and who in self.ref_paired and self.ref_paired[who]["admin"]
+        body = tlv8.encode([(rc.T_METHOD, b"\x04"), (rc.T_ID, ident)])
+        m = self.w.request(c, rc.http_request("POST", "/pairings", body, CT), op.get("split"))
+        got = canon_resp(m)
+        acked = got.get("status") == 200 and got.get("tlv") == [[rc.T_STATE, "02"]]
+        if may:
+            # an admin's removal: the pairing map changes as by unpair (that is all the pair-verify model sees);
+            # the accessory then closes the sessions of removed controllers -- later ops on them are skipped
+            self.ref_unpair(u)
+            self.mops.append({"op": "unpair", "uuid": u.bytes.hex()})
+            self.impl.append({"paired": self.paired_obs()})
+        elif acked:
+            self.fail("C02:pairings-served-under-unproven-identity",
+                      f"remove-pairing on connection {c} was acknowledged although no admin identity is proven on it")
+        self.outcomes.append("RP-" + ("ack" if acked else _cls(got)))
+
     def op_G(self, n, op):
         c = op["conn"]
+        if self.closed(c):
+            return
         _p, _t, r = self.w.conn(c)
         m = self.w.request(c, rc.http_request("GET", "/accessories"), op.get("split"))
         got = canon_resp(m)
@@ -622,6 +752,22 @@ def G(c):
     return {"op": "G", "conn": c}
 
 
+def L(c):
+    return {"op": "L", "conn": c}
+
+
+def RX(c, pick=0):
+    return {"op": "RX", "conn": c, "pick": pick}
+
+
+def RP(c, i, sp="upper"):
+    return {"op": "RP", "conn": c, "id": i, "sp": sp}
+
+
+def T(dt):
+    return {"op": "T", "dt": dt}
+
+
 MATERIALS = ["swapped", "other_sepk", "other_cepk", "other_exchange", "other_id", "no_sepk", "no_cepk"]
 OUTERS = ["other", "random", "shared"]
 MALS = [
@@ -663,6 +809,32 @@ def boundary_scripts() -> List[List[Dict[str, Any]]]:
     s.append([P(0), V1(0, eph="zero"), V3(0), G(0)])
     s.append([P(0), V1(0), V1(0, eph="zero"), V3(0), G(0)])  # a failed M1 leaves the previous context in place
     s.append([P(0), U(0, direct=True), P(0), V1(0), V3(0), G(0), U(0), G(0), P(0), G(0)])
+    # ---- the last-admin sweep: B (and C) disappear implicitly when admin A goes; somebody pairs again; the swept
+    # controllers come back with their old keys (after having verified before, or never)
+    for how in ("unpair", "direct", "post"):
+        rm = {"unpair": [U(0)], "direct": [U(0, direct=True)], "post": [V1(9), V3(9, i=0), RP(9, 0)]}[how]
+        for again in (P(3), P(0), P(0, key=2)):
+            s.append([P(0), P(1, admin=False), P(2, admin=False), V1(0), V3(0, i=1), G(0), *rm, again,
+                      V1(1), V3(1, i=1), G(1), V1(2), V3(2, i=2), G(2), V1(3), V3(3, i=0), G(3)])
+    # explicit removal, then re-added with the same / another key, old and new key tried; verified before removal
+    for newkey in (1, 2):
+        for how in ("unpair", "post"):
+            rm = [U(1)] if how == "unpair" else [V1(9), V3(9, i=0), RP(9, 1)]
+            s.append([P(0), P(1, admin=False), V1(0), V3(0, i=1), G(0), *rm, V1(1), V3(1, i=1), G(1),
+                      P(1, key=newkey, admin=False), V1(2), V3(2, i=1, key=1), G(2), V1(3), V3(3, i=1, key=newkey), G(3)])
+    # re-keyed while paired (no removal): the old key must stop working at once, also after it was used
+    s.append([P(0), P(1, admin=False), V1(0), V3(0, i=1), P(1, key=2, admin=False), V1(1), V3(1, i=1, key=1), G(1), V1(2), V3(2, i=1, key=2), G(2)])
+    # ---- verbatim replay of a completed exchange on a fresh connection: at once, later, much later
+    s.append([P(0), V1(0), V3(0), G(0), RX(1), G(1)])
+    s.append([P(0), V1(0), V3(0), T(5), RX(1), G(1), T(31), RX(2), G(2), T(4000), RX(3), G(3)])
+    s.append([P(0), P(1), V1(0), V3(0), V1(1), V3(1, i=1), RX(2, pick=0), G(2), RX(3, pick=1), G(3), RX(0, pick=1), G(0)])
+    # accessory ephemeral keys of consecutive first steps (same and different connections, with and without time between)
+    s.append([P(0), V1(0), V1(0), V1(1), T(1), V1(2), T(40), V1(3), V3(3), G(3)])
+    # ---- as which controller is a connection authorised: a failed second verify naming somebody else changes nothing
+    for bogus in ({"key": 9}, {"key": "junk"}, {"key": 1}, {"mal": "no_proof"}, {"material": "other_id"}):
+        s.append([P(0), P(1, admin=False), V1(0), V3(0, i=1), L(0), V1(0), V3(0, i=0, **{"key": 0, **bogus}), L(0), G(0)])
+    s.append([P(0), P(1, admin=False), L(0), V1(0), L(0), V3(0, i=0, key=9), L(0), V3(0, i=0), L(0), V1(0), V3(0, i=1, key=9), L(0)])
+    s.append([P(0), P(1, admin=False), V1(0), V3(0, i=1), L(0), RP(0, 0), V1(0), V3(0, i=0), L(0), RP(0, 1), V1(1), V3(1, i=1), G(1)])
     return s
 
 
@@ -684,9 +856,25 @@ def random_script(rng) -> List[Dict[str, Any]]:
             i = rng.randrange(n_ctl)
             ops.append(P(i, key=rng.choice([i, i, i, (i + 1) % 3, "junk"]) if rng.random() < 0.3 else i,
                          admin=rng.random() < 0.6, sp=rng.choice(SPELLINGS)))
-        elif x < 0.14:
-            ops.append(U(rng.randrange(n_ctl + 1), direct=rng.random() < 0.3))
-        elif x < 0.30:
+        elif x < 0.17:
+            # removal, often followed by somebody (re-)pairing: the removed / swept ids must stay out
+            i = rng.randrange(n_ctl + 1)
+            if rng.random() < 0.25:
+                ops.append(RP(c, i))
+            else:
+                ops.append(U(i, direct=rng.random() < 0.3))
+            if rng.random() < 0.6:
+                j = rng.choice([i % n_ctl, rng.randrange(n_ctl), 3])
+                ops.append(P(j, key=rng.choice([j, j, (j + 1) % 3]), admin=rng.random() < 0.6))
+        elif x < 0.20:
+            ops.append(RX(rng.choice([c, n_conn + rng.randrange(3)]), pick=rng.randrange(4)))
+            if rng.random() < 0.6:
+                ops.append(G(ops[-1]["conn"]))
+        elif x < 0.22:
+            ops.append(T(rng.choice([1, 10, 29, 31, 600])))
+        elif x < 0.26:
+            ops.append(L(c))
+        elif x < 0.38:
             eph = "fresh" if rng.random() < 0.85 else rng.choice(["zero", "short", "nokey", "reuse"])
             ops.append(V1(c, eph=eph, pick=rng.randrange(4), split=split))
             if eph in ("fresh", "reuse"):
@@ -713,6 +901,8 @@ def random_script(rng) -> List[Dict[str, Any]]:
             ops.append(op)
             if rng.random() < 0.7:
                 ops.append(G(c))
+            if rng.random() < 0.2:
+                ops.append(L(c))
         else:
             ops.append(G(c))
     return ops
